@@ -341,6 +341,23 @@ def same_names_in_a():
         shutil.rmtree(sb, ignore_errors=True)
 
 
+def hide_undoc_in_a():
+    """A is documented with hide_undoc: its undocumented public entities have no pages; B must not link to them (it may still name them)"""
+    os.makedirs(realrun.TMPROOT, exist_ok=True)
+    sb = tempfile.mkdtemp(dir=realrun.TMPROOT)
+    try:
+        with site.site(A_FILES, META_A + "hide_undoc: true\n", sandbox=sb, proj="A") as (pa, sa):
+            if not sa.startswith("ok"):
+                return [f"building A failed: {sa}"]
+            with site.site(B_FILES, META_B, sandbox=sb, proj="B") as (pb, sbst):
+                if not sbst.startswith("ok"):
+                    return [f"building B against A failed: {sbst[:300]}"]
+                bad, n = check_b_links(os.path.join(pb, "doc"), os.path.join(pa, "doc"), {"liba_core": "module/liba_core.html", "shape_t": "type/shape_t.html", "area": "proc/area.html"}, set())
+                return bad
+    finally:
+        shutil.rmtree(sb, ignore_errors=True)
+
+
 def search(parts=("end_to_end", "broken", "absolute", "remote")):
     for part in parts:
         if part == "end_to_end":
@@ -354,6 +371,8 @@ def search(parts=("end_to_end", "broken", "absolute", "remote")):
             bad, _ = external_entities_in_declarations()
         elif part == "same_names":
             bad = same_names_in_a()
+        elif part == "hide_undoc":
+            bad = hide_undoc_in_a()
         else:
             bad = remote_rebasing()
         if bad:
